@@ -133,6 +133,28 @@ func c13Ops(w *World) [][]Op {
 			admin = append(admin, Op{K: "create", Idx: c13Churn, Cfg: &IndexCfg{Metric: "euclidean", Prec: "float32", M: 4, EfC: 8}})
 		}
 	}
+	if r.Intn(4) == 0 {
+		// vacuum storm: one more client inserts and deletes its own vectors in quick succession while the admin
+		// vacuums again and again, so that deletes land inside a running vacuum that has older tombstones to reclaim
+		var ch []Op
+		c := len(tasks)
+		n := 0
+		for i := 0; i < 4; i++ {
+			n++
+			ch = append(ch, Op{K: "add", Idx: c13Hot, ID: fmt.Sprintf("c%dn%d", c, n), Vec: genVec(r, 3), Meta: map[string]any{"owner": float64(c)}})
+		}
+		for i := 0; i < 3+r.Intn(4); i++ {
+			ch = append(ch, Op{K: pick(r, []string{"del", "delq"}), Idx: c13Hot, ID: fmt.Sprintf("c%dn%d", c, 1+r.Intn(n))})
+			if r.Intn(2) == 0 {
+				n++
+				ch = append(ch, Op{K: "add", Idx: c13Hot, ID: fmt.Sprintf("c%dn%d", c, n), Vec: genVec(r, 3), Meta: map[string]any{"owner": float64(c)}})
+			}
+		}
+		tasks = append(tasks, ch)
+		for i := 0; i < 3+r.Intn(3); i++ {
+			admin = append(admin, Op{K: "maint", Idx: c13Hot, Task: "vacuum"})
+		}
+	}
 	tasks = append(tasks, admin)
 	// closer (half of the runs), followed by calls after Close in the client tasks
 	if r.Intn(2) == 0 {
